@@ -4,6 +4,7 @@
 -/
 import Xc.D0
 import Xc.Config
+import Xc.Heap
 
 namespace Xc
 
@@ -16,7 +17,18 @@ structure DriverState where
   desObjs : List (Nat × Des.Ctx) := []
   /-- objects whose scratch area is zero except (possibly) for a key schedule written by setkey_r -/
   desDirtyOnly : List Nat := []
+  heap : Heap := { blocks := [] }
+  raPairs : List (Nat × RaPair × DataObj) := []
+  faultAt : Nat := 0
   deriving Inhabited
+
+def DriverState.getRa (st : DriverState) (id : Nat) : RaPair × DataObj :=
+  match st.raPairs.find? (·.1 == id) with
+  | some (_, p, d) => (p, d)
+  | none => ({ data := none, size := 0 }, { out := none, scratchZero := false })
+
+def DriverState.setRa (st : DriverState) (id : Nat) (p : RaPair) (d : DataObj) : DriverState :=
+  { st with raPairs := (id, p, d) :: st.raPairs.filter (·.1 != id) }
 
 def zeroDes : Des.Ctx := { keysl := Array.replicate 16 0, keysr := Array.replicate 16 0, saltbits := 0 }
 
@@ -217,6 +229,72 @@ def opDesBlock (k salt count b dec : String) : String :=
     s!"d={showBytes (Des.cryptBlock (Des.mkCtx k salt) b count (dec != 0))}"
   | _, _, _, _, _ => "bad-op"
 
+def opRaSet (st : DriverState) (id : Nat) (mode : String) (k : Nat) : DriverState :=
+  let garbage : DataObj := { out := none, scratchZero := false }
+  let mk (size : Nat) (recorded : Int) : DriverState :=
+    let (h, j) := st.heap.alloc { size := size, live := true, zero := false }
+    ({ st with heap := h }).setRa id { data := some j, size := recorded } garbage
+  let sz := Gen.sizeof_crypt_data
+  if mode == "null" then st.setRa id { data := none, size := 0 } garbage
+  else if mode == "valid" then mk sz sz
+  else if mode == "big" then mk (sz + k) (sz + k)
+  else if mode == "small" then mk (if k = 0 then 1 else k) k
+  else if mode == "neg" then mk 64 (-(k : Int))
+  else if mode == "nullsize" then st.setRa id { data := none, size := k } garbage
+  else st
+
+def opRa (st : DriverState) (id : Nat) (p s : Option Bytes) : DriverState × String :=
+  let (pair, obj) := st.getRa id
+  let needsAlloc := pair.data.isNone || pair.size < 0 || pair.size < Gen.sizeof_crypt_data
+  let allocOk := !(needsAlloc && st.faultAt == 1)
+  let (h, pair', obj', o) := cryptRa st.cfg D0 p s st.heap pair obj allocOk
+  -- a fault position beyond crypt_ra's own request lands in the hashing method (yescrypt family: mmap, munmap)
+  let kdfReq := if !allocOk then 0 else cryptRequests st.cfg p s
+  let kpos := if st.faultAt = 0 then 0 else st.faultAt - (if needsAlloc then 1 else 0)
+  let kdfFault := allocOk && kpos ≥ 1 && kpos ≤ kdfReq
+  let (obj', o) : DataObj × RaObs :=
+    if kdfFault then
+      ({ out := failureToken s Gen.CRYPT_OUTPUT_SIZE, scratchZero := true }, { o with ret := none, errno := some .EINVAL })
+    else (obj', o)
+  let st' := ({ st with heap := h, faultAt := 0 }).setRa id pair' obj'
+  let ret := match o.ret with | none => "NULL" | some _ => "out"
+  let data := match pair'.data with | none => "null" | some _ => "set"
+  let big := match pair'.data with | some _ => decide (pair'.size ≥ Gen.sizeof_crypt_data) | none => false
+  let out := if big then (match obj'.out with | none => "unterminated" | some x => showBytes x) else "?"
+  let wz := if big then (if obj'.scratchZero then "1" else "0") else "?"
+  let oldz := if o.grew && pair.data.isSome then (if o.oldErased then "1" else "0") else "-"
+  let fired := if !allocOk || kdfFault then 1 else 0
+  let allocs := if kdfFault then o.requests + kpos else o.requests + kdfReq
+  let leak := if kdfFault && kpos == 2 then 1 else 0
+  (st', s!"ret={ret} errno={showErr o.errno} size={pair'.size} data={data} out={out} wz={wz} oldzero={oldz} allocs={allocs} fired={fired} leak={leak} dfree=0 abort=0")
+
+def opCryptFault (st : DriverState) (entry id p s : String) : DriverState × String :=
+  match argBytes p, argBytes s with
+  | some pb, some sb =>
+    let nreq := cryptRequests st.cfg pb sb
+    let k := st.faultAt
+    let st0 := { st with faultAt := 0 }
+    if k = 0 ∨ k > nreq then
+      let (st', line) := opCrypt st0 entry id p s none
+      (st', line ++ s!" allocs={nreq} fired=0 leak=0 dfree=0 maps=0 badmunmap=0")
+    else
+      -- the k-th request fails: mmap (k = 1) or munmap (k = 2); either way the call fails with EINVAL and the
+      -- computed hash, if any, is discarded.  Model it as the same call on an unknown prefix-preserving failure.
+      match id.toNat? with
+      | some idn =>
+        let idn := idn % 8
+        let d0 := if entry == "st" then st0.static else st0.getObj idn
+        let tok := failureToken sb Gen.CRYPT_OUTPUT_SIZE
+        let d1 : DataObj := { out := (match tok with | some t => some t | none => d0.out), scratchZero := true }
+        let st' := if entry == "st" then { st0 with static := d1 } else st0.setObj idn d1
+        let b (x : Bool) := if x then "1" else "0"
+        let wu := b d0.scratchZero
+        let ret := if entry == "rn" then "NULL" else "out"
+        let tail := if entry == "st" then "wz=1 wu=? app=?" else s!"wz=1 wu={wu} app=1"
+        (st', s!"ret={ret} errno=EINVAL out={match d1.out with | some x => showBytes x | none => "unterminated"} {tail} abort=0 dig=0 exact=1 cost=0 mem=0 allocs={k} fired=1 leak={if k = 2 then 1 else 0} dfree=0 maps={if k = 2 then 1 else 0} badmunmap=0")
+      | none => (st0, "bad-op")
+  | _, _ => (st, "bad-op")
+
 def stepOp (st : DriverState) (toks : List String) : DriverState × String :=
   match toks with
   | ["G", entry, pfx, count, rb, nrb, osz] => (st, opGensalt st entry pfx count rb nrb osz)
@@ -226,6 +304,31 @@ def stepOp (st : DriverState) (toks : List String) : DriverState × String :=
     let names := ms.splitOn ","
     let en : Method → Bool := fun m => names.contains m.name
     ({ st with cfg := mkConfig Gen.hashesConf en }, "ok")
+  | "RASET" :: ids :: mode :: rest =>
+    (match ids.toNat? with
+     | some id => (opRaSet st (id % 8) mode ((rest.head?.bind String.toNat?).getD 0), "ok")
+     | none => (st, "bad-op"))
+  | ["RA", ids, p, s] =>
+    (match ids.toNat?, argBytes p, argBytes s with
+     | some id, some p, some s => opRa st (id % 8) p s
+     | _, _, _ => (st, "bad-op"))
+  | ["RAFREE", ids] =>
+    (match ids.toNat? with
+     | some id =>
+       let (pair, _) := st.getRa (id % 8)
+       let h := match pair.data with
+         | some i => (match st.heap.get i with | some b => st.heap.set i { b with live := false } | none => st.heap)
+         | none => st.heap
+       (({ st with heap := h }).setRa (id % 8) { data := none, size := 0 } { out := none, scratchZero := false }, "ok")
+     | none => (st, "bad-op"))
+  | ["FAULT", k] => ({ st with faultAt := k.toNat?.getD 0 }, "ok")
+  | ["GA", pfx, count, rb, nrb] =>
+    (match argBytes pfx, count.toNat?, argBytes rb, nrb.toInt? with
+     | some pfx, some count, some rb, some nrb =>
+       let r := gensaltRa st.cfg pfx count rb nrb (st.faultAt != 1) (osFrom st.osBytes)
+       ({ st with faultAt := 0 }, s!"ret={match r.ret with | none => "NULL" | some x => showBytes x} errno={showErr r.errno} allocs=1 fired={if st.faultAt == 1 then 1 else 0} leak=0 dfree=0")
+     | _, _, _, _ => (st, "bad-op"))
+  | ["CF", entry, id, p, s] => opCryptFault st entry id p s
   | "SK" :: k :: _ => (match (argBytes k).bind id with | some k => ({ st with desStatic := opSetkey k }, "ok") | none => (st, "bad-op"))
   | "SKR" :: ids :: k :: _ =>
     (match ids.toNat?, (argBytes k).bind (fun x => x) with
